@@ -8,7 +8,7 @@ from pydantic import Field
 
 from primaite import getLogger
 from primaite.exceptions import NetworkError
-from primaite.simulator.network.hardware.base import Link, WiredNetworkInterface
+from primaite.simulator.network.hardware.base import Link, NetworkInterface, WiredNetworkInterface
 from primaite.simulator.network.hardware.nodes.network.network_node import NetworkNode
 from primaite.simulator.network.transmission.data_link_layer import Frame
 
@@ -66,6 +66,7 @@ class SwitchPort(WiredNetworkInterface):
             self._connected_node.sys_log.info(f"{self}: Frame dropped as Link is at capacity")
             return False
 
+        NetworkInterface.send_frame(self, frame)  # NMNE / traffic capture of the base interface
         self.pcap.capture_outbound(frame)
         self._connected_link.transmit_frame(sender_nic=self, frame=frame)
         return True
@@ -83,6 +84,7 @@ class SwitchPort(WiredNetworkInterface):
                 self._connected_node.sys_log.warning("Frame discarded as TTL limit reached")
                 return False
             self.pcap.capture_inbound(frame)
+            NetworkInterface.receive_frame(self, frame)  # NMNE / traffic capture of the base interface
             self._connected_node.receive_frame(frame=frame, from_network_interface=self)
             return True
         return False
